@@ -201,8 +201,17 @@ def update_progress(inc):
     # If the _progress_counter has not been set we are working in a
     # synchronous non-progress tracking context
     if _progress_counter is not None:
-        with _progress_counter.get_lock():
-            _progress_counter.value += inc
+        # Never block for long here: if another worker was killed while it
+        # held this lock, the lock is lost for good. A worker stuck on it can
+        # never finish or be reaped cleanly, which has been seen to keep the
+        # driver from noticing the dead worker at all. Progress is only
+        # cosmetic, so the update is dropped instead.
+        lock = _progress_counter.get_lock()
+        if lock.acquire(timeout=1):
+            try:
+                _progress_counter.value += inc
+            finally:
+                lock.release()
 
 
 def get_progress():
